@@ -19,7 +19,11 @@ def run_C02(tier, seed):
     count = _sizes(tier, 250, 4000)
     for i in range(count):
         rules = gen_network(rng, 2, 6 if tier == "quick" else 7)
-        cases.append({"rules": rules, "config": {}, "history": [(rng.choice(["bfs", "dfs"]), None, None, None)]})
+        pre = []
+        if rng.random() < 0.5:      # touch stubs first (attractor queries / minimal-space expansion from a stub cache their Petri nets)
+            pre = [("expand", 0)] + [rng.choice([("seeds", rng.randint(1, 4), False), ("cands", rng.randint(1, 4), True, True), ("min", rng.randint(1, 4), 2, False)]) for _ in range(rng.randint(1, 3))]
+        cases.append({"rules": rules, "config": {}, "history": pre + [(rng.choice(["bfs", "dfs"]), None, None, None)]})
+    cases = pmap(P._fix_worker, load_corpus("C02") + cases)
     ws = pmap(P._case_worker, cases)
     viol = harness_errors(ws, "C02")
     stats = {"nodes_total": 0, "shared_child": 0, "multi_motif_edge": 0, "with_sources": 0}
@@ -71,8 +75,7 @@ def _history_run(pid, tier, seed, kinds, count_q, count_t, max_len_q, max_len_t,
         pre = [json.loads(l) for l in open(corpus) if l.strip()]
         for c in pre:
             c["history"] = [tuple(o) for o in c["history"]]
-    cases = pmap(P._fix_worker, cases)
-    cases = pre + cases
+    cases = pmap(P._fix_worker, pre + cases)
     ws = pmap(P._case_worker, cases)
     viol = harness_errors(ws, pid)
     opcount = {}
@@ -114,7 +117,7 @@ def run_C04(tier, seed):
                 out.append({"sig": msg.split(" ")[0] + "-" + msg.split(" ")[1], "what": msg, "step": idx}); break
         return out
     rng = random.Random(seed)
-    res = _history_run("C04", tier, seed, PLAIN, 300, 5000, 6, 10, (100000, 100000, 100000, 2, 3, 5), pred, _nontrivial_hist,
+    res = _history_run("C04", tier, seed, PLAIN + ("cands", "seeds", "min"), 300, 5000, 6, 10, (100000, 100000, 100000, 2, 3, 5), pred, _nontrivial_hist,
                        "random interleavings of plain expansion ops (expand/bfs/dfs/min/target; random start nodes, level/stack/size limits, max_motifs_per_node in {default,2,3,5}) on random and modular networks; each history is followed by nothing else, the full reference comes from the model; non-trivial = final diagram has more than 2 nodes")
     # second clause: continuing with unrestricted BFS gives the fresh diagram
     return res
@@ -151,5 +154,85 @@ def run_C20(tier, seed):
             if st["meta"] and (st["meta"]["len"] != len(ns) or st["meta"]["depth"] != max(x["depth"] for x in ns)):
                 out.append({"sig": "len-or-depth", "what": "len()/depth() disagree with the node list", "step": idx}); return out
         return out
-    return _history_run("C20", tier, seed, PLAIN + ("skipmin", "skiprem", "skip", "pickle", "reclaim"), 300, 5000, 6, 10, (100000,), pred, _nontrivial_hist,
-                        "random histories over all structural ops; after every op: node depth = longest root path (recomputed), len()/depth() agree with the dump, ids contiguous; non-trivial = more than 2 nodes")
+    res = _history_run("C20", tier, seed, PLAIN + ("skipmin", "skiprem", "skip", "pickle", "reclaim"), 300, 5000, 6, 10, (100000,), pred, _nontrivial_hist,
+                        "random histories over all structural ops; after every op: node depth = longest root path (recomputed), len()/depth() agree with the dump, ids contiguous; plus pairs of diagrams of one network under two plain histories: is_subgraph / is_isomorphic / find_node compared with inclusion / equality of the node-space and edge sets recomputed from the dumps; plus build() + summary(): every brute-force attractor listed exactly once with the label of the node that contains it; non-trivial = more than 2 nodes")
+    rng = random.Random(seed + 1)
+    pairs = []
+    for _ in range(_sizes(tier, 200, 3000)):
+        rules = gen_network(rng, 2, 6)
+        n = len(rules.splitlines())
+        pairs.append({"rules": rules, "rules_b": rules if rng.random() < 0.8 else random_network(rng, n), "ha": H.gen_history(rng, n, max_len=3, kinds=PLAIN), "hb": H.gen_history(rng, n, max_len=4, kinds=PLAIN), "seed": rng.randrange(10**9)})
+    ps = pmap(_c20_pair_worker, pairs)
+    for w in ps:
+        if w.get("error"):
+            res["violations"].append(error_violation("C20", w)); continue
+        for sig, msg in w["msgs"][:1]:
+            res["violations"].append({"property": "C20", "signature": "C20:" + sig, "what": msg, "case": w["case"], "failing_input": True})
+    res["evaluations"] += len(pairs)
+    res["extra"]["pair_cases"] = len(pairs)
+    return res
+
+def _c20_pair_worker(case):
+    try:
+        rng = random.Random(case["seed"])
+        a = make_sd(case["rules"]); b = make_sd(case["rules_b"]); nm = var_names(a)
+        for op in case["ha"]:
+            op = list(op)
+            if op[0] in ("bfs", "dfs", "min", "expand") and op[1] is not None:
+                op[1] = op[1] % len(a)
+            _, _, a = H.apply_real(a, tuple(op), nm)
+        for op in case["hb"]:
+            op = list(op)
+            if op[0] in ("bfs", "dfs", "min", "expand") and op[1] is not None:
+                op[1] = op[1] % len(b)
+            _, _, b = H.apply_real(b, tuple(op), nm)
+        msgs = []
+        def sets(sd):
+            nodes = {tuple(sorted(sd.node_data(i)["space"].items())) for i in sd.node_ids()}
+            edges = {(tuple(sorted(sd.node_data(x)["space"].items())), tuple(sorted(sd.node_data(y)["space"].items()))) for x, y in sd.dag.edges()}
+            return nodes, edges
+        na, ea = sets(a); nb, eb = sets(b)
+        for x, y, nx_, ex, ny, ey, nmx in ((a, b, na, ea, nb, eb, "a,b"), (b, a, nb, eb, na, ea, "b,a")):
+            want = nx_ <= ny and ex <= ey
+            got = x.is_subgraph(y)
+            if got != want:
+                msgs.append(("is_subgraph", f"is_subgraph({nmx}) = {got}, but node sets included: {nx_ <= ny}, edge sets included: {ex <= ey}")); break
+        want = (na == nb and ea == eb)
+        if not msgs and a.is_isomorphic(b) != want:
+            msgs.append(("is_isomorphic", f"is_isomorphic = {a.is_isomorphic(b)}, but node sets equal: {na == nb}, edge sets equal: {ea == eb}"))
+        # find_node: exact match or nothing
+        for i in list(a.node_ids())[:5]:
+            sp = dict(a.node_data(i)["space"])
+            if a.find_node(sp) != i:
+                msgs.append(("find_node", f"find_node(space of node {i}) = {a.find_node(sp)}"))
+            free = [v for v in nm if v not in sp]
+            if free:
+                sp2 = dict(sp); sp2[free[0]] = 1
+                if tuple(sorted(sp2.items())) not in na and a.find_node(sp2) is not None:
+                    msgs.append(("find_node", f"find_node returns {a.find_node(sp2)} for a space that is no node"))
+        # summary after build
+        c = make_sd(case["rules"]); c.build()
+        tabs = tables_of(c); m = Model(len(nm), tabs); m.add("attractors"); attrs = parse_attractors(m.run()[0])
+        listed = []
+        label = None
+        for line in c.summary().splitlines()[4:]:
+            if line.startswith("minimal trap space ") or line.startswith("motif avoidance in "):
+                label = line[:18]; space = line[19:]
+            elif line.startswith("."):
+                listed.append((label, space, line.lstrip(".")))
+        order = sorted(nm)
+        def to_state(s):
+            d = dict(zip(order, s)); return "".join(d[v] for v in nm)
+        ids = [next((k for k, at in enumerate(attrs) if to_state(s) in at), None) for _, _, s in listed]
+        if None in ids or sorted(ids) != list(range(len(attrs))):
+            msgs.append(("summary", f"summary() lists attractors {ids} (None = state in no attractor); the network has {len(attrs)} attractors"))
+        else:
+            for (lab, space, s), k in zip(listed, ids):
+                sp_dict = {v: int(ch) for v, ch in zip(order, space) if ch != "*"}
+                node = c.find_node(sp_dict)
+                is_min = node is not None and c.node_is_minimal(node)
+                if (lab.startswith("minimal")) != is_min:
+                    msgs.append(("summary-label", f"summary() labels {space} as '{lab}' but node_is_minimal = {is_min}")); break
+        return {"case": case, "msgs": msgs, "error": None}
+    except Exception:
+        return {"case": case, "error": traceback.format_exc()}
